@@ -15,7 +15,7 @@ from systems import poly_eval_exact
 TWO30 = Fraction(1, 2 ** 30)
 
 
-def build_poly_component(rng, nx, na, ny, levels, kpl, domains, norms=None, name='pc'):
+def build_poly_component(rng, nx, na, ny, levels, kpl, domains, norms=None, name='pc', alpha_gain=0.0):
     """model y_j(x) = polynomial in *unit* coordinates u_k = (x_k - lo_k)/(hi_k - lo_k), so that one and the same
     polynomial can be re-parameterised on shifted/scaled domains (C17); coefficients are filled in later via `terms`."""
     from amisc import Component, Variable
@@ -34,6 +34,10 @@ def build_poly_component(rng, nx, na, ny, levels, kpl, domains, norms=None, name
                     if e:
                         t = t * u ** e
                 tot = tot + t
+            if alpha_gain and model_fidelity is not None:       # opt-in: the output depends on the model fidelity (per sample)
+                mf = np.atleast_2d(np.asarray(model_fidelity, dtype=float))
+                asum = mf.sum(axis=1) if mf.shape[0] == np.size(tot) else np.full(np.shape(tot), mf[0].sum())
+                tot = tot + alpha_gain * (j + 1) * np.reshape(asum, np.shape(tot)) * (1.0 + us[0])
             out[f'y{j}'] = tot
         return out
     xs = [Variable(f'x{k}', distribution=f'U({float(domains[k][0])!r}, {float(domains[k][1])!r})',
